@@ -135,13 +135,25 @@ def run_crit(case, ctx):
         else:
             xk = "full-rank"
         ctx.cls("design=" + xk)
+        # the weight vector and the sample order as the caller may hold them: contiguous, every other cell of a longer
+        # buffer, a column of a table (the compiled signatures take strided 1-D views)
+        wlay = ["contiguous", "every-other-cell", "column-of-a-table"][(case["sub"] + len(tkind) + 2 * len(okind) + len(wkind)) % 3]
+        if wlay == "every-other-cell":
+            bw, bo = numpy.full(2 * n, 777.0), numpy.full(2 * n, 0, dtype=numpy.intp)
+            bw[::2], bo[::2] = w, order
+            w, order = bw[::2], bo[::2]
+        elif wlay == "column-of-a-table":
+            tw, to = numpy.full((n, 3), -5.0), numpy.zeros((n, 2), dtype=numpy.intp)
+            tw[:, 1], to[:, 0] = w, order
+            w, order = tw[:, 1], to[:, 0]
+        ctx.cls("weights-layout=" + wlay)
         W = float(w.sum())
         ymax = float(numpy.abs(y).max())
         # slack relative to the magnitude of the targets (an absolute floor would hide everything on tiny ones)
         atol = 1e-9 * ((1 + ymax ** 2) if tkind not in ("tiny", "huge") else max(ymax ** 2, 1e-300)) * (
             100 if tkind == "offset" else 1)
         vtol = 1e-9 * (1.0 if tkind not in ("tiny", "huge") else max(ymax, 1e-300))
-        cfg = {"n": n, "target": tkind, "weights": wkind, "order": okind, "d": d, "design": xk}
+        cfg = {"n": n, "target": tkind, "weights": wkind, "order": okind, "d": d, "design": xk, "weights_layout": wlay}
         crits = {"simple": SimpleRegressorCriterion(1, n), "fast": SimpleRegressorCriterionFast(1, n)}
         # the linear criterion: impurities are specified for unit weights only, the node value (weighted mean) always
         crits["linear"] = LinearRegressorCriterion(1, X)
@@ -199,7 +211,10 @@ def run_crit(case, ctx):
                     ctx.violation(K + "node-impurity%s" % ("/" + wkind if wkind != "unit" else ""),
                                   "range [%d,%d): impurity %r, expected %r" % (s, e, imp, exp_imp), cfg=cfg)
                 per_pos = []
-                for pos in positions:
+                # split positions in increasing order, or in decreasing order (what was computed at an interior position
+                # is then still in the object when a boundary position is asked)
+                backwards = (s + e) % 3 == 0
+                for pos in (positions[::-1] if backwards else positions):
                     cm._test_criterion_update(c, pos)
                     ctx.hit("asan.crit" if asan else "crit.%s.triples" % name)
                     left, right = cm._test_criterion_node_impurity_children(c)
@@ -221,6 +236,17 @@ def run_crit(case, ctx):
                         if not numpy.isnan(proxy):
                             ctx.violation(K + "proxy-at-boundary", "triple (%d,%d,%d): proxy improvement %r, "
                                           "documented NaN at the boundary" % (s, pos, e, proxy), cfg=cfg)
+                        # the improvement at a boundary: one child is the node itself, the other is empty
+                        full_side = right if pos == s else left
+                        if numpy.isfinite(left) and numpy.isfinite(right) and numpy.isfinite(full_side):
+                            ii = cm._test_criterion_impurity_improvement(c, imp, left, right)
+                            wn = wl + wr
+                            expi = (wn / W) * (imp - full_side)
+                            ctx.hit("crit.improvement_at_boundary")
+                            if not close(ii, expi, atol):
+                                ctx.violation(K + "impurity-improvement/at-boundary", "triple (%d,%d,%d), positions visited "
+                                              "%s: improvement %r, documented formula %r" % (
+                                                  s, pos, e, "backwards" if backwards else "forwards", ii, expi), cfg=cfg)
                     else:
                         expp = -wr * right - wl * left
                         if not close(proxy, expp, atol * max(1.0, W)):
@@ -233,6 +259,8 @@ def run_crit(case, ctx):
                             ctx.violation(K + "impurity-improvement", "triple (%d,%d,%d): improvement %r, documented "
                                           "formula %r" % (s, pos, e, ii, expi), cfg=cfg)
                     per_pos.append((left, right))
+                if backwards:
+                    per_pos = per_pos[::-1]
                 res[name] = (val, imp, per_pos)
             if "simple" in res and "fast" in res:
                 ctx.hit("crit.simple_vs_fast")
